@@ -2,7 +2,9 @@
    Disk model: the list of committed batches and the index up to which they are durable (a synced prune batch makes
    everything before it durable); a crash keeps ANY prefix containing the durable part (OCrash c, every c), reopening
    replays the prefix and runs NewStorage.  This is pebble's contract for atomic batches and WAL-prefix recovery; the
-   contract itself is validated by the correspondence run (clean reopen at every point, crash images), not proved.
+   contract itself is validated by the correspondence run, not proved: clean reopen at every point, crash images after
+   every put, and crash images just before file-system operations of pebble (write, sync, create, rename, remove ...;
+   unsynced writes dropped and kept) must all equal NewStorage on some allowed prefix of whole batches.
    Histories contain restarts and crashes at arbitrary positions with arbitrary cuts, so "every prefix of every
    history, every cut, every continuation" is one universally quantified op list. *)
 From Shisui Require Import Base.Bytes Gen.K_storage Model.Storage Proofs.Storage.
